@@ -517,18 +517,23 @@ def rule_fresh_context(repo: Repo) -> List[Ob]:
     obs = []
     cls = repo.cls("RecBuilder", RB)
     n = 0
+    from ..shape import expanded, callers_of
     for m in cls.all_methods:
-        calls = [x for x in walk_no_nested(m.node) if isinstance(x, ast.Call) and call_name(x) == "_replace_assign" and isinstance(x.func, ast.Attribute)
+        if m.name.startswith("_") and any(g.cls is cls and any(isinstance(x, ast.Call) and call_name(x) == "_replace_assign" for x in walk_no_nested(expanded(repo, g, keep=("_replace_assign",)))) and
+                                          not any(isinstance(x, ast.Call) and call_name(x) == "_replace_assign" for x in walk_no_nested(g.node)) for g in callers_of(repo, m)):
+            continue      # a private helper holding the loop of a backward pass: judged in its caller, where it is read in place
+        mx = expanded(repo, m, keep=("_replace_assign",))
+        calls = [x for x in walk_no_nested(mx) if isinstance(x, ast.Call) and call_name(x) == "_replace_assign" and isinstance(x.func, ast.Attribute)
                  and isinstance(x.func.value, ast.Name) and x.func.value.id == m.params()[0]]
         if not calls:
             continue
         n += 1
-        c = cfg_of(m.node)
-        fresh = [s for s in walk_no_nested(m.node) if isinstance(s, ast.Assign) and any(is_self_attr(t, "context", m.params()[0]) for t in s.targets)
+        c = cfg_of(mx)
+        fresh = [s for s in walk_no_nested(mx) if isinstance(s, ast.Assign) and any(is_self_attr(t, "context", m.params()[0]) for t in s.targets)
                  and isinstance(s.value, ast.Call) and call_name(s.value) == "RecBuilderContext"]
         if not fresh:
             # a helper of the class that installs a fresh context
-            for s in walk_no_nested(m.node):
+            for s in walk_no_nested(mx):
                 if isinstance(s, ast.Expr) and isinstance(s.value, ast.Call) and isinstance(s.value.func, ast.Attribute) and isinstance(s.value.func.value, ast.Name) \
                         and s.value.func.value.id == m.params()[0]:
                     h = cls.find_method(s.value.func.attr)
@@ -820,6 +825,19 @@ def rule_transform_terms(repo: Repo) -> List[Ob]:
         if not tv:
             raise AnalysisError(f"{qn}: transform term not found")
         idn = [nm for nm, vals in defs.defs.items() if any(isinstance(v, ast.expr) and "'Id'" in src(v) for v in vals)]
+        # a, s, c = (powers.get(f, 0) for f in ("Id", "Sin", "Cos"))   /   e, a = powers.get("Exp", 0), powers.get("Id", 0)
+        for nm, vals in defs.defs.items():
+            for v in vals:
+                if type(v).__name__ == "_Elem" and isinstance(getattr(v, "index", None), int):
+                    e0 = v.expr
+                    if isinstance(e0, (ast.Tuple, ast.List)) and v.index < len(e0.elts) and "'Id'" in src(e0.elts[v.index]):
+                        idn.append(nm)
+                    if isinstance(e0, (ast.GeneratorExp, ast.ListComp)) and len(e0.generators) == 1 and isinstance(e0.generators[0].iter, (ast.Tuple, ast.List)) \
+                            and v.index < len(e0.generators[0].iter.elts) and src(e0.generators[0].iter.elts[v.index]) == "'Id'":
+                        idn.append(nm)
+        if not idn:
+            obs.append(inconclusive("M-transform-term", f"{FA}::{qn}::identity-power", FA, f.node.lineno, qn, "the variable holding the power of the identity factor was not recognised"))
+            continue
         for nm in tv:
             for v, site in zip(defs.defs[nm], defs.def_sites.get(nm, [])):
                 if not isinstance(v, ast.expr) or isinstance(site, ast.AugAssign):
